@@ -29,17 +29,33 @@ SCENARIOS = {
     'push|push': [('push', ('bytes', scen.push_data(3000)), '/g', {'mtime': 7}), ('push', ('bytes', scen.push_data(2500)[::-1]), '/h', {'mtime': 8})],
     'list|stat': [('list', '/d'), ('stat', '/f')],
     'stream|shell': [('streaming_shell', 'two', {'decode': False}), ('shell', 'one', {'decode': False})],
+    'sdec|sdec': [('streaming_shell', 'two', {'decode': True}), ('streaming_shell', 'jp', {'decode': True})],      # decoded text: characters split across WRTEs
     'shell|shell|shell': [('shell', 'two', {'decode': False}), ('shell', 'one', {'decode': False}), ('exec_out', 'two', {'decode': False})],
     'shell|stat|push': [('shell', 'two', {'decode': False}), ('stat', '/f'), ('push', ('bytes', scen.push_data(3000)), '/g', {'mtime': 7})],
 }
-OUT = {b'shell:two': [b'two-1\xc3', b'\xa9two-2'], b'shell:one': [b'one-1'], b'shell:none': [], b'exec:two': [b'x-1', b'x-2']}
+OUT = {b'shell:two': [b'two-1\xc3', b'\xa9two-2'], b'shell:one': [b'one-1'], b'shell:none': [], b'exec:two': [b'x-1', b'x-2'], b'shell:jp': [b'\xe3\x81', b'\x82!', b'xyz']}
 CFG = scen.ops_cfg('two', 4096)
 CFG['shell'] = OUT
 CFG_MIRROR = dict(CFG, remote_ids=scen.REMOTE_FAMILIES['mirror'])
 
 
+_SOLO = {}
+
+
 def expected(op):
     n = op[0]
+    if isinstance(op[-1], dict) and op[-1].get('decode'):
+        # decoded output: the reference is what the same call returns when it runs alone on the same code
+        key = repr(op)
+        if key not in _SOLO:
+            from ..chooser import FixedChooser
+            s = Session(FixedChooser(), CFG, twin='sync')
+            try:
+                s.op(('connect',))
+                _SOLO[key] = s.op(op)
+            finally:
+                s.finish()
+        return _SOLO[key]
     if n in ('shell', 'exec_out'):
         return ('ok', b''.join(OUT[{'shell': b'shell:', 'exec_out': b'exec:'}[n] + op[1].encode()]))
     if n == 'streaming_shell':
@@ -182,6 +198,8 @@ _WARM = set()
 
 def run_threads(params, ch):
     ops = SCENARIOS[params['scenario']]
+    for op in ops:
+        expected(op)
     key = (params['scenario'], params.get('trace', 0))
     if key[1] and key not in _WARM:
         # line instrumentation is installed lazily per code object and process: one throw-away execution first
@@ -272,6 +290,8 @@ async def async_op(s, op):
 
 def run_tasks(params, ch):
     ops = SCENARIOS[params['scenario']]
+    for op in ops:
+        expected(op)          # solo references are computed before this execution's session exists (they use a session of their own)
     s = Session(ch, CFG_MIRROR if params.get('mirror') else CFG, twin='async', explore_io=False, max_calls=5000)
     probe = None
     try:
